@@ -308,6 +308,11 @@ func executeAs(s *rt.Spec, scn *rt.Scenario, prop, regName string) *execResult {
 		}
 		return res
 	}
+	for _, r := range res.runs {
+		if r.Env.GateInconclusive.Load() {
+			res.inconclusive = "gate scenario timed out while the process was still busy (slow machine)"
+		}
+	}
 	leak, ok := rt.AwaitNoSched(base, 20*time.Second)
 	if !ok {
 		res.inconclusive = "scheduler goroutines still present after the directive returned, not in a stable blocked state"
